@@ -372,7 +372,7 @@ pub fn run(tier: Tier) -> i32 {
             rep.eval(1);
         }
         // missing pieces
-        for what in ["no-manifest", "no-locales-dir", "no-file", "dir-instead-of-file", "manifest-without-table", "manifest-invalid-toml", "manifest-binary"] {
+        for what in ["no-manifest", "no-locales-dir", "no-file", "dir-instead-of-file", "manifest-without-table", "manifest-invalid-toml", "manifest-binary", "header-quoted-after-multibyte-text", "header-quoted-after-multibyte-text-no-table", "header-quoted-in-multiline-string", "header-after-bom"] {
             let dir = scratch.worker(0);
             let p = file_project("\"v\"");
             let _ = p.materialise(&dir, default_opts());
@@ -386,6 +386,20 @@ pub fn run(tier: Tier) -> i32 {
                     std::fs::create_dir_all(&f).unwrap();
                 }
                 "manifest-without-table" => std::fs::write(dir.join("Cargo.toml"), "[package]\nname=\"x\"\n").unwrap(),
+                "header-quoted-after-multibyte-text" => {
+                    let m = std::fs::read_to_string(dir.join("Cargo.toml")).unwrap();
+                    let (a, b) = m.split_once("[package.metadata.leptos-i18n]").unwrap();
+                    std::fs::write(dir.join("Cargo.toml"), format!("{a}# \u{8a2d}\u{5b9a}\u{306f} [package.metadata.leptos-i18n] \u{306b}\u{66f8}\u{304f}\n# \u{43a}\u{43e}\u{43d}\u{444}\u{438}\u{433} \u{1f600}\u{e9}\u{e9}\u{e9} [package.metadata.leptos-i18n]\n[package.metadata.leptos-i18n]{b}")).unwrap()
+                }
+                "header-quoted-after-multibyte-text-no-table" => std::fs::write(dir.join("Cargo.toml"), "[package]\nname=\"x\"\n# \u{8a2d}\u{5b9a}\u{306f} [package.metadata.leptos-i18n] \u{306b}\u{66f8}\u{304f}\n# \u{e9}\u{e9}\u{e9} [package.metadata.leptos-i18n]\n").unwrap(),
+                "header-quoted-in-multiline-string" => {
+                    let m = std::fs::read_to_string(dir.join("Cargo.toml")).unwrap();
+                    std::fs::write(dir.join("Cargo.toml"), m.replace("[package.metadata.leptos-i18n]", "description = \"\"\"\n\u{1f600}\u{1f600} [package.metadata.leptos-i18n] \u{1f600}\n\"\"\"\n\n[package.metadata.leptos-i18n]")).unwrap()
+                }
+                "header-after-bom" => {
+                    let m = std::fs::read_to_string(dir.join("Cargo.toml")).unwrap();
+                    std::fs::write(dir.join("Cargo.toml"), format!("\u{feff}{m}")).unwrap()
+                }
                 "manifest-invalid-toml" => std::fs::write(dir.join("Cargo.toml"), "[package.metadata.leptos-i18n]\ndefault = [[[\n").unwrap(),
                 _ => std::fs::write(dir.join("Cargo.toml"), (0u8..=255).collect::<Vec<u8>>()).unwrap(),
             }
@@ -443,7 +457,7 @@ pub fn run(tier: Tier) -> i32 {
     rep.sample(json!({"file_value": "[\"f32\", [\"x{{count}}\", \"NaN..=inf\"], [\"y\"]]"}));
     rep.sample(json!({"file_value": "\"pre $t(a, {\\\"x\\\": \\\"$t(k)\\\"}) post\""}));
     let mut cov = serde_json::Map::new();
-    cov.insert("rule".into(), json!(format!("(1) every string of <= {} tokens over {:?} through ParsedValue::new (+reduce when no foreign key is left); (2) every such string of <= {} tokens as a value in a real file through parse_locales (project also holds a, b=$t(a), count, p_one/p_other so references can resolve); (2b) the foreign-key forms of (5) and the short token strings again in 9 positions (plural `_one` / `_other` / a middle form, ordinal `_other`, range branch and fallback, nested subkey, a non-default locale, an argument of a foreign key), each in a project without namespaces and in one with two namespaces (references as written and addressed as `one:<key>`); (2c) one string per character-class edge (C0 / DEL / C1 controls, separators, marks, BMP and astral edges) alone, doubled, inside text, before a quote, after a backslash; (3) every range count of <= {} tokens over 13 spec tokens for i8,u8,f32,u64 and every JSON number class as count and as literal foreign-key count; (4) all small JSON values of depth <= {} in value position; (5) 13 targets x 13 argument texts x 4 positions of $t; (6) 26 whole-file contents (incl. keys written twice whose first value held references) and 7 missing/garbled project pieces; (7) nesting / length 1..2000 of 12 constructs and foreign-key chains, each in a subprocess on an 8 MiB stack; oracle: Ok or Err with non-empty message, no panic, no crash, every case within 20 s (deep: 60 s)", tier.pick(5, 6), TOKENS, tier.pick(3, 4), tier.pick(3, 4), tier.pick(2, 3))));
+    cov.insert("rule".into(), json!(format!("(1) every string of <= {} tokens over {:?} through ParsedValue::new (+reduce when no foreign key is left); (2) every such string of <= {} tokens as a value in a real file through parse_locales (project also holds a, b=$t(a), count, p_one/p_other so references can resolve); (2b) the foreign-key forms of (5) and the short token strings again in 9 positions (plural `_one` / `_other` / a middle form, ordinal `_other`, range branch and fallback, nested subkey, a non-default locale, an argument of a foreign key), each in a project without namespaces and in one with two namespaces (references as written and addressed as `one:<key>`); (2c) one string per character-class edge (C0 / DEL / C1 controls, separators, marks, BMP and astral edges) alone, doubled, inside text, before a quote, after a backslash; (3) every range count of <= {} tokens over 13 spec tokens for i8,u8,f32,u64 and every JSON number class as count and as literal foreign-key count; (4) all small JSON values of depth <= {} in value position; (5) 13 targets x 13 argument texts x 4 positions of $t; (6) 26 whole-file contents (incl. keys written twice whose first value held references) and 11 missing/garbled project pieces (incl. the table header quoted after multi-byte text in comments and strings); (7) nesting / length 1..2000 of 12 constructs and foreign-key chains, each in a subprocess on an 8 MiB stack; oracle: Ok or Err with non-empty message, no panic, no crash, every case within 20 s (deep: 60 s)", tier.pick(5, 6), TOKENS, tier.pick(3, 4), tier.pick(3, 4), tier.pick(2, 3))));
     cov.insert("exhaustive".into(), json!(true));
     cov.insert("outcome_classes".into(), json!(*classes.lock().unwrap()));
     cov.insert("front_end".into(), json!(build_format().name()));
